@@ -15,8 +15,8 @@ Empty == [k \in Keys |-> NONE]
 NoOp == [k |-> "-", v |-> "-"]
 Over(lo, hi) == [k \in Keys |-> IF hi[k] # NONE THEN hi[k] ELSE lo[k]]
 Vis(m) == [k \in Keys |-> IF m[k] = TOMB THEN NONE ELSE m[k]]
-RECURSIVE ApplyOps(_, _)
-ApplyOps(m, ops) == IF ops = <<>> THEN m ELSE ApplyOps([m EXCEPT ![Head(ops).k] = Head(ops).v], Tail(ops))
+\* the last operation on a key decides (no recursion: WAL files of real sessions hold hundreds of operations)
+ApplyOps(m, ops) == [k \in Keys |-> LET i == SelectLastInSeq(ops, LAMBDA o : o.k = k) IN IF i = 0 THEN m[k] ELSE ops[i].v]
 
 VARIABLES
   wals,     \* [n -> Seq(op)] for existing WAL files (n : Nat)
